@@ -118,10 +118,7 @@ def op_request(kf):
     q = getattr(kf, "__qualname__", "")
     cv = closure_vars(kf)
     if q.startswith("repeat.<locals>"):
-        # repeat does not normalise a negative axis: `i == axis` then never matches and the key function is the
-        # identity (the plan later fails inside a task: C17's concern).  Model the code that exists: an axis that
-        # matches no coordinate (Ops.onAxis leaves the coordinates unchanged).
-        ax = cv["axis"] if cv["axis"] >= 0 else 99
+        ax = cv["axis"]   # normalised by validate_axis since cfb5bf3
         return "repeat", lambda oc: "key|repeat|%d|%d|%s" % (cv["repeats"], ax, nl(oc))
     if q.startswith("stack.<locals>"):
         return "stack", lambda oc: "key|stack|%d|%s" % (cv["axis"], nl(oc))
@@ -840,6 +837,26 @@ FIXED_TRIGGERS = {
                                     [{"op": "vecdot", "family": "vecdot", "in": [0, 1], "params": {"axis": -1}}], [2]), "ok"),
     "vecdot-v-w": (_prog([_inp([3], [2], "float64", "perm:1"), _inp([4, 3], [3, 2], "float64", "perm:8", 1)],
                          [{"op": "vecdot", "family": "vecdot", "in": [0, 1], "params": {"axis": -1}}], [2]), "ok"),
+    # 3b811ad "fix: mean rejects non-numeric (bool) input" (var/std already did): never a value for bool operands
+    "mean-bool": (_prog([_inp([4], [2], "bool")],
+                        [{"op": "mean", "family": "reduce", "in": [0], "params": {"axis": None, "keepdims": False, "split_every": None}}], [1]), "decline"),
+    "mean-bool-empty-axis": (_prog([_inp([0], [1], "bool")],
+                                   [{"op": "mean", "family": "reduce", "in": [0], "params": {"axis": [0], "keepdims": False, "split_every": None}}], [1]), "decline"),
+    "var-bool": (_prog([_inp([4], [2], "bool")],
+                       [{"op": "var", "family": "reduce", "in": [0], "params": {"axis": 0, "keepdims": False, "split_every": None, "correction": 0}}], [1]), "decline"),
+    "std-bool": (_prog([_inp([2, 3], [1, 2], "bool")],
+                       [{"op": "std", "family": "reduce", "in": [0], "params": {"axis": 1, "keepdims": True, "split_every": None, "correction": 0}}], [1]), "decline"),
+    # cfb5bf3 "fix: repeat normalizes a negative axis and handles zero or negative repeats"
+    "repeat-axis--1": (_prog([_inp([3, 5], [2, 2])],
+                             [{"op": "repeat", "family": "repeat", "in": [0], "params": {"repeats": 2, "axis": -1}}], [1]), "ok"),
+    "repeat-axis--2": (_prog([_inp([3, 2], [2, 2])],
+                             [{"op": "repeat", "family": "repeat", "in": [0], "params": {"repeats": 3, "axis": -2}}], [1]), "ok"),
+    "repeat-axis--3-of-3d": (_prog([_inp([2, 3, 4], [1, 2, 3])],
+                                   [{"op": "repeat", "family": "repeat", "in": [0], "params": {"repeats": 2, "axis": -3}}], [1]), "ok"),
+    "repeat-0": (_prog([_inp([5], [2])],
+                       [{"op": "repeat", "family": "repeat", "in": [0], "params": {"repeats": 0, "axis": 0}}], [1]), "ok"),
+    "repeat-0-axis-None-2d": (_prog([_inp([2, 3], [2, 3])],
+                                    [{"op": "repeat", "family": "repeat", "in": [0], "params": {"repeats": 0, "axis": None}}], [1]), "ok"),
     # d99e354 "fix: hypot only accepts real floating-point dtypes"
     "hypot-int": (_prog([_inp([2], [1], salt=3)],
                         [{"op": "hypot", "family": "binary", "in": [0, 0], "params": {"_k": "binary"}}], [1]), "decline"),
